@@ -1,0 +1,123 @@
+//go:build verif
+
+// Contracts for contract-based deductive verification (checked by /verif/govc).
+// This file is comment-only and compiled only with the build tag "verif".
+// C01/C12/C03: what the policy tells the runtime (applyGrant, updateSharedAllocations).
+
+package topologyaware
+
+// ---- ghost state: the runtime view of each container as written through the cache.Container setters ---------------
+// rtCpus/rtShares/rtMems: the last value written; rt*W: how many times the plugin wrote it.
+//@ ghost rtCpus map[cache.Container]cpuset.CPUSet
+//@ ghost rtCpusW map[cache.Container]int
+//@ ghost rtShares map[cache.Container]int64
+//@ ghost rtSharesW map[cache.Container]int
+//@ ghost rtMems map[cache.Container]string
+//@ ghost rtMemsW map[cache.Container]int
+//@ pure rtOK() bool = rtCpus != nil && rtCpusW != nil && rtShares != nil && rtSharesW != nil && rtMems != nil && rtMemsW != nil && rtCpusW != rtSharesW && rtCpusW != rtMemsW && rtSharesW != rtMemsW
+// the cpuset a cpuset.cpus string denotes ("" denotes the empty set)
+//@ pure cpusOf(s string) cpuset.CPUSet
+//@ iface github.com/containers/nri-plugins/pkg/resmgr/cache.Container.SetCpusetCpus
+//@   modifies rtCpus[*], rtCpusW[*]
+//@   ensures vals(rtCpus) == upd(old(vals(rtCpus)), self, arg0 == "" ? emptyset() : cpusOf(arg0)) && vals(rtCpusW) == upd(old(vals(rtCpusW)), self, old(rtCpusW[self]) + 1)
+//@ iface github.com/containers/nri-plugins/pkg/resmgr/cache.Container.SetCPUShares
+//@   modifies rtShares[*], rtSharesW[*]
+//@   ensures vals(rtShares) == upd(old(vals(rtShares)), self, arg0) && vals(rtSharesW) == upd(old(vals(rtSharesW)), self, old(rtSharesW[self]) + 1)
+//@ iface github.com/containers/nri-plugins/pkg/resmgr/cache.Container.SetCpusetMems
+//@   modifies rtMems[*], rtMemsW[*]
+//@   ensures vals(rtMems) == upd(old(vals(rtMems)), self, arg0) && vals(rtMemsW) == upd(old(vals(rtMemsW)), self, old(rtMemsW[self]) + 1)
+//@ iface github.com/containers/nri-plugins/pkg/resmgr/cache.Container.GetCpusetCpus
+//@   modifies nothing
+//@ iface github.com/containers/nri-plugins/pkg/resmgr/cache.Container.GetCpusetMems
+//@   modifies nothing
+//@ iface github.com/containers/nri-plugins/pkg/resmgr/cache.Container.GetID
+//@   ensures result == ctrID(self)
+//@ pure ctrID(c cache.Container) string
+//@ effect github.com/containers/nri-plugins/pkg/resmgr/lib/memory.(NodeMask).MemsetString pure
+
+// setPreferredCpusetCpus: ASSUMED. It tells the runtime the allocated set, or - when the container asks to hide
+// hyperthreads - a subset of it (sysfs.SingleThreadForCPUs); the string conversion is cpuset.String.
+//@ assume-contract (*policy).setPreferredCpusetCpus
+//@   modifies rtCpus[*], rtCpusW[*]
+//@   ensures vals(rtCpusW) == upd(old(vals(rtCpusW)), container, old(rtCpusW[container]) + 1)
+//@   ensures forall c cache.Container :: c != container ==> rtCpus[c] == old(rtCpus[c])
+//@   ensures rtCpus[container].IsSubsetOf(allocated) && (rtCpus[container].IsEmpty() <==> allocated.IsEmpty())
+//@   ensures !hidesHT(container) ==> rtCpus[container].Equals(allocated)
+//@ pure hidesHT(c cache.Container) bool
+
+// ---- applyGrant (C01/C12/C03) ---------------------------------------------------------------------------------------------
+//@ pure grantShared(g *grant) cpuset.CPUSet = sup(nFree(g.node)).sharable
+//@ pure grantReserved(g *grant) cpuset.CPUSet = tot(g.node).reserved
+//@ pure pinnedSet(g *grant) cpuset.CPUSet = g.cpuType == cpuReserved ? grantReserved(g) :
+//@    (g.exclusive.IsEmpty() ? grantShared(g) : (g.cpuPortion > 0 ? g.exclusive.Union(grantShared(g)) : g.exclusive))
+//@ pure grantMilli(g *grant) int = (g.cpuType == cpuPreserve || g.cpuPortion == 0) ? 1000 * g.exclusive.Size() : g.cpuPortion
+//@ func (*policy).applyGrant
+//@   requires p != nil && opt != nil && rtOK() && grant != nil && gr(grant).node != nil && gr(grant).container != nil && nFree(gr(grant).node) != nil && nTotal(gr(grant).node) != nil
+//@   requires 0 <= gr(grant).cpuPortion && gr(grant).cpuPortion <= 1 << 40 && gr(grant).exclusive.Size() <= 1 << 30
+//@   let g = gr(grant)
+//@   let c = gr(grant).container
+//@   let known = gr(grant).cpuType == cpuNormal || gr(grant).cpuType == cpuReserved || gr(grant).cpuType == cpuPreserve
+//@   # C12: a grant of a cpu.preserve container, or any grant with CPU pinning off, is never told a cpuset
+//@   ensures[C12] g.cpuType == cpuPreserve || !opt.PinCPU ==> rtCpusW[c] == old(rtCpusW[c]) && rtCpus[c] == old(rtCpus[c])
+//@   # C01: otherwise the container is told exactly once: its exclusive CPUs, exclusive+shared, the pool's shared set, or the reserved set
+//@   ensures[C01] known && g.cpuType != cpuPreserve && opt.PinCPU ==> rtCpusW[c] == old(rtCpusW[c]) + 1 && rtCpus[c].IsSubsetOf(pinnedSet(g))
+//@   ensures[C01] known && g.cpuType != cpuPreserve && opt.PinCPU && !hidesHT(c) ==> rtCpus[c].Equals(pinnedSet(g))
+//@   # C03: a pinned container is told a non-empty cpuset - as long as its pool's shared (reserved) set is not empty
+//@   ensures[C03] known && g.cpuType != cpuPreserve && opt.PinCPU && !pinnedSet(g).IsEmpty() ==> !rtCpus[c].IsEmpty()
+//@   ensures[C01,C12] forall o cache.Container :: o != c ==> rtCpus[o] == old(rtCpus[o]) && rtCpusW[o] == old(rtCpusW[o]) && rtShares[o] == old(rtShares[o]) && rtSharesW[o] == old(rtSharesW[o]) && rtMems[o] == old(rtMems[o]) && rtMemsW[o] == old(rtMemsW[o])
+//@   # C03: cpu.shares is the kubelet encoding of the granted capacity
+//@   ensures[C03] known && g.cpuType != cpuPreserve && opt.PinCPU ==> rtSharesW[c] == old(rtSharesW[c]) + 1 && rtShares[c] == int64(kubernetes.MilliCPUToShares(int64(grantMilli(g))))
+//@   ensures[C03,C12] !opt.PinCPU ==> rtSharesW[c] == old(rtSharesW[c])
+//@   # C12 (as stated in the task: nothing is written for preserve)
+//@   ensures[C12] g.cpuType == cpuPreserve ==> rtSharesW[c] == old(rtSharesW[c])
+//@   # C12/C04: memory
+//@   ensures[C12] g.memType == memoryPreserve ==> rtMemsW[c] == old(rtMemsW[c]) && rtMems[c] == old(rtMems[c])
+//@   ensures[C12] known && g.memType != memoryPreserve ==> rtMemsW[c] == old(rtMemsW[c]) + 1 && rtMems[c] == (opt.PinMemory ? g.memZone.MemsetString() : libmem.NodeMask(0).MemsetString())
+
+// ---- updateSharedAllocations (C01/C12) ----------------------------------------------------------------------------------
+// Grants that are NOT re-pinned: reserved-class, cpu.preserve, exclusive-only grants, and the grant that triggered the update.
+//@ pure grantsOK(p *policy) bool = p.allocations.grants != nil &&
+//@    (forall id string :: id in p.allocations.grants ==> p.allocations.grants[id] != nil && gr(p.allocations.grants[id]).node != nil &&
+//@         gr(p.allocations.grants[id]).container != nil && nFree(gr(p.allocations.grants[id]).node) != nil) &&
+//@    (forall i string, j string :: i in p.allocations.grants && j in p.allocations.grants && i != j ==> gr(p.allocations.grants[i]).container != gr(p.allocations.grants[j]).container)
+//@ pure skipShared(g *grant, trigger *Grant) bool = g.cpuType == cpuReserved || g.cpuType == cpuPreserve || (sharedPortion(g) == 0 && !g.exclusive.IsEmpty()) ||
+//@    (trigger != nil && ctrID(g.container) == ctrID(gr(*trigger).container))
+//@ pure repinSet(g *grant) cpuset.CPUSet = g.exclusive.IsEmpty() ? grantShared(g) : g.exclusive.Union(grantShared(g))
+//@ func (*policy).updateSharedAllocations
+//@   requires p != nil && opt != nil && rtOK() && grantsOK(p) && (grant != nil ==> *grant != nil && gr(*grant).container != nil)
+//@   let early = grant != nil && gr(*grant).cpuType == cpuReserved
+//@   modifies rtCpus[*], rtCpusW[*]
+//@   # C12: skipped grants (and every grant when CPU pinning is off) are not told anything
+//@   ensures[C12,C01] forall id string :: id in p.allocations.grants && (early || !opt.PinCPU || skipShared(gr(p.allocations.grants[id]), grant)) ==>
+//@        rtCpusW[gr(p.allocations.grants[id]).container] == old(rtCpusW[gr(p.allocations.grants[id]).container]) && rtCpus[gr(p.allocations.grants[id]).container] == old(rtCpus[gr(p.allocations.grants[id]).container])
+//@   # C01: every other grant is re-pinned, once, to the CURRENT shared set of its pool (plus its own exclusive CPUs)
+//@   ensures[C01] forall id string :: id in p.allocations.grants && !early && opt.PinCPU && !skipShared(gr(p.allocations.grants[id]), grant) ==>
+//@        rtCpusW[gr(p.allocations.grants[id]).container] == old(rtCpusW[gr(p.allocations.grants[id]).container]) + 1 && rtCpus[gr(p.allocations.grants[id]).container].IsSubsetOf(repinSet(gr(p.allocations.grants[id]))) &&
+//@        (!hidesHT(gr(p.allocations.grants[id]).container) ==> rtCpus[gr(p.allocations.grants[id]).container].Equals(repinSet(gr(p.allocations.grants[id]))))
+//@ loop 0 in (*policy).updateSharedAllocations at "range p.allocations.grants"
+//@   modifies rtCpus[*], rtCpusW[*]
+//@   invariant !early
+//@   invariant forall id string :: id in p.allocations.grants && (!seen(id) || !opt.PinCPU || skipShared(gr(p.allocations.grants[id]), grant)) ==>
+//@        rtCpusW[gr(p.allocations.grants[id]).container] == old(rtCpusW[gr(p.allocations.grants[id]).container]) && rtCpus[gr(p.allocations.grants[id]).container] == old(rtCpus[gr(p.allocations.grants[id]).container])
+//@   invariant forall id string :: id in p.allocations.grants && seen(id) && opt.PinCPU && !skipShared(gr(p.allocations.grants[id]), grant) ==>
+//@        rtCpusW[gr(p.allocations.grants[id]).container] == old(rtCpusW[gr(p.allocations.grants[id]).container]) + 1 && rtCpus[gr(p.allocations.grants[id]).container].IsSubsetOf(repinSet(gr(p.allocations.grants[id]))) &&
+//@        (!hidesHT(gr(p.allocations.grants[id]).container) ==> rtCpus[gr(p.allocations.grants[id]).container].Equals(repinSet(gr(p.allocations.grants[id]))))
+
+// ---- releasePool (C09): the grant is released and forgotten ------------------------------------------------------------------
+// (saving the allocations to the cache does not touch the policy state)
+//@ iface github.com/containers/nri-plugins/pkg/resmgr/cache.Cache.SetPolicyEntry
+//@   modifies nothing
+//@ iface github.com/containers/nri-plugins/pkg/resmgr/cache.Cache.Save
+//@   modifies nothing
+//@ func (*policy).releasePool
+//@   requires p != nil && container != nil && p.cache != nil && p.allocations.grants != nil
+//@   requires ctrID(container) in p.allocations.grants ==> releasable(gr(p.allocations.grants[ctrID(container)])) && libmem.idle(nPolicy(gr(p.allocations.grants[ctrID(container)]).node).memAllocator)
+//@   let G = gr(p.allocations.grants[ctrID(container)])
+//@   let had = ctrID(container) in p.allocations.grants
+//@   ensures[C09] !had ==> result0 == nil && !result1 && p.allocations.grants == old(p.allocations.grants) && dom(p.allocations.grants) == old(dom(p.allocations.grants))
+//@   ensures[C09] had ==> result1 && gr(result0) == G && !(ctrID(container) in p.allocations.grants) && p.allocations.grants == old(p.allocations.grants)
+//@   ensures[C09] had ==> forall id string :: id != ctrID(container) ==> (id in p.allocations.grants) == old(id in p.allocations.grants) && p.allocations.grants[id] == old(p.allocations.grants[id])
+//@   # the pool gets back the grant's exclusive CPUs and its promised capacity
+//@   ensures[C09] had ==> fs(G).isolated.Equals(old(fs(G).isolated).Union(G.exclusive.Intersection(tot(fs(G).node).isolated))) && fs(G).sharable.Equals(old(fs(G).sharable).Union(G.exclusive.Difference(tot(fs(G).node).isolated)))
+//@   ensures[C09] had ==> fs(G).grantedShared == old(fs(G).grantedShared) - sharedPortion(G) && fs(G).grantedReserved == old(fs(G).grantedReserved) - reservedPortion(G)
+//@   ensures[C09] !had ==> forall s *supply :: s.isolated == old(s.isolated) && s.sharable == old(s.sharable) && s.grantedShared == old(s.grantedShared) && s.grantedReserved == old(s.grantedReserved)
